@@ -183,6 +183,16 @@ def gen_round(rng, tier, mk):
                 a = ip_pair(rng, shape, nc, ea, eb)
                 if a is not None:
                     add("innerprod", a)
+    # ---- large operands: row look-ups over more than 1000 candidate pairs (a size-dependent path inside the row helpers is
+    #      invisible below that), stored orders identity / reversed / random
+    for shape in ([6, 6], [4, 3, 3]):
+        a = ip_pair(rng, shape, 34, 1, 1)
+        add("innerprod", a)
+        w = sp_args(rng, shape, 35)
+        add("mask", dict(sp_args(rng, shape, 35), rk="sparse", bsubs=w["subs"], bvals=[1] * len(w["subs"])))
+        qs = [[rng.randrange(d) for d in shape] for _ in range(32)]
+        add("extract", dict(sp_args(rng, shape, 34), q=qs))
+        add("getitem", dict(sp_args(rng, shape, 34), q=qs))
     # ---- innerprod: dense and Kruskal operands; norm
     for shape in SHAPES * (3 if big else 1):
         n = math.prod(shape)
